@@ -152,3 +152,74 @@ Proof.
   split; [repeat split; cbn; unfold SHIFT_LIMIT; lia|]. split; [intros H; discriminate H|].
   split; [vm_compute; reflexivity|]. eexists. split; [vm_compute; reflexivity|]. vm_compute. tauto.
 Qed.
+
+(* ---- totality: bitwise_not answers for every proper interval ---- *)
+
+Lemma ssplit_shape a : wf a -> (lb a <= ub a \/ 0 < stride a) ->
+  (ssplit a = Ok [a] /\ lb a <= ub a) \/
+  (exists A B, ssplit a = Ok [A; B] /\ lb A <= ub A /\ wf A /\ wf B /\ bits A = bits a /\ bits B = bits a).
+Proof.
+  intros (Hb & Hw & Hs & Hl & Hu) Hc.
+  pose proof (pow_pos (bits a) ltac:(lia)) as Hn.
+  unfold ssplit. rewrite max_int_ok by lia. cbn [bind].
+  destruct (ub a <? lb a) eqn:E; [|left; split; [reflexivity|apply Z.ltb_ge in E; exact E]].
+  apply Z.ltb_lt in E. right. unfold py_mod. destruct (stride a =? 0) eqn:Es; [apply Z.eqb_eq in Es; lia|]. cbn [bind].
+  assert (Hsp : 0 < stride a) by lia.
+  pose proof (Z.mod_pos_bound (2 ^ bits a - 1 - lb a) (stride a) Hsp) as Hr.
+  pose proof (Z.mod_le (2 ^ bits a - 1 - lb a) (stride a) ltac:(lia) Hsp) as Hrle.
+  set (r := (2 ^ bits a - 1 - lb a) mod stride a) in *.
+  destruct (mk_sound (bits a) (stride a) (lb a) (2 ^ bits a - 1 - r) Hw Hs) as (A & EA & WA & BA & _).
+  rewrite EA. cbn [bind]. rewrite modular_add_ok by lia. cbn [bind].
+  match goal with |- context [mk ?w ?s ?l ?u] => destruct (mk_sound w s l u Hw Hs) as (B & EB & WB & BB & _) end.
+  rewrite EB. cbn [bind]. exists A, B. split; [reflexivity|].
+  split; [|split; [exact WA|split; [exact WB|split; [exact BA|exact BB]]]].
+  apply mk_bounds in EA; [|lia|lia|lia]. destruct EA as [[-> ->]|(-> & -> & _)]; lia.
+Qed.
+
+Lemma not_piece_total w s p : 0 < w < SHIFT_LIMIT -> 0 <= s -> exists r, not_piece w s p = Ok r /\ wf r /\ bits r = w.
+Proof.
+  intros Hw Hs. unfold not_piece.
+  assert (Hl : exists last, (if 0 <? s then (do r0 <- py_mod (ub p - lb p) s; Ok (ub p - r0)) else Ok (ub p)) = Ok last).
+  { destruct (0 <? s) eqn:E; [|eexists; reflexivity]. apply Z.ltb_lt in E. unfold py_mod.
+    destruct (s =? 0) eqn:Ez; [apply Z.eqb_eq in Ez; lia|]. cbn [bind]. eexists; reflexivity. }
+  destruct Hl as (last & ->). cbn [bind].
+  destruct (mk_sound w s (- last - 1) (- lb p - 1) Hw Hs) as (r & Hr & Wr & Br & _). exists r. auto.
+Qed.
+
+Theorem not_total a : wf a -> proper a -> exists r, si_not a = Ok r.
+Proof.
+  intros Hwf Hp. pose proof Hwf as (Hb & Hw & Hs & Hl & Hu).
+  assert (Hc : lb a <= ub a \/ 0 < stride a).
+  { destruct (Z.eq_dec (stride a) 0) as [E|E]; [left; rewrite (Hp E); lia|right; lia]. }
+  unfold si_not.
+  destruct (ssplit_shape a Hwf Hc) as [[-> Hle]|(A & B & -> & HA & WA & WB & BA & BB)]; cbn [bind filter].
+  - destruct (Z.ltb_spec (ub a) (lb a)); [lia|]. cbn [negb mapM].
+    destruct (not_piece_total (bits a) (stride a) a Hw Hs) as (r1 & -> & W1 & B1). cbn [bind].
+    destruct (normalize_sound r1 (wf_rawok _ W1)) as (r & Hr & _). exists r. exact Hr.
+  - destruct (Z.ltb_spec (ub A) (lb A)); [lia|]. cbn [negb].
+    destruct (not_piece_total (bits a) (stride a) A Hw Hs) as (r1 & E1 & W1 & B1).
+    destruct (ub B <? lb B); cbn [negb mapM]; rewrite E1; cbn [bind].
+    + destruct (normalize_sound r1 (wf_rawok _ W1)) as (r & Hr & _). exists r. exact Hr.
+    + destruct (not_piece_total (bits a) (stride a) B Hw Hs) as (r2 & -> & W2 & B2). cbn [bind].
+      destruct (union_sound r1 r2 W1 W2 ltac:(congruence)) as (u & -> & Wu & _). cbn [bind].
+      destruct (normalize_sound u (wf_rawok _ Wu)) as (r & Hr & _). exists r. exact Hr.
+Qed.
+
+(* the total form used by the lifting to sets of intervals *)
+Theorem not_sound_total a : wf a -> proper a ->
+  exists r, si_not a = Ok r /\ wf r /\ bits r = bits a /\ forall x, gamma a x -> gamma r (2 ^ bits a - 1 - x).
+Proof.
+  intros Hwf Hp. destruct (not_total a Hwf Hp) as (r & Hr). exists r. split; [exact Hr|].
+  split; [|split].
+  - pose proof Hwf as (Hb & Hw & Hs & Hl & Hu).
+    destruct (not_sound a r (lb a) Hwf Hp Hr) as (W & _).
+    + split; [exact Hb|]. exists 0. pose proof (span_range a ltac:(lia)). split; [lia|]. split; [lia|].
+      rewrite Z.mul_0_l, Z.add_0_r, Z.mod_small; lia.
+    + exact W.
+  - pose proof Hwf as (Hb & Hw & Hs & Hl & Hu).
+    destruct (not_sound a r (lb a) Hwf Hp Hr) as (_ & B & _).
+    + split; [exact Hb|]. exists 0. pose proof (span_range a ltac:(lia)). split; [lia|]. split; [lia|].
+      rewrite Z.mul_0_l, Z.add_0_r, Z.mod_small; lia.
+    + exact B.
+  - intros x Hx. exact (proj2 (proj2 (not_sound a r x Hwf Hp Hr Hx))).
+Qed.
